@@ -560,6 +560,11 @@ def _load_json(cls, path):
 '''
 
 
+DECORATORS = {"_parameters_size": ["property"], "from_dataframe": ["staticmethod"], "from_pytorch": ["staticmethod"],
+              "load": ["classmethod"], "_check_and_get_extension": ["staticmethod"], "_load_csv": ["classmethod"],
+              "_load_json": ["classmethod"]}          # every other method: none
+
+
 def decorators(fn) -> list:
     return [dotted(d) for d in fn.decorator_list]
 
@@ -656,12 +661,29 @@ def build() -> dict:
     cls = classes[0]
     if cls.bases or cls.keywords or cls.decorator_list:
         raise Untranslatable(f"{CLASS} has base classes / decorators")
+    # nothing at module level can rebind the class or one of its methods: imports, __all__, the class
+    for st in tree.body:
+        if isinstance(st, (ast.Import, ast.ImportFrom)) or st is cls:
+            continue
+        if isinstance(st, ast.Assign) and len(st.targets) == 1 and dotted(st.targets[0]) == "__all__":
+            continue
+        if isinstance(st, ast.Expr) and isinstance(st.value, ast.Constant) and isinstance(st.value.value, str):
+            continue
+        raise Untranslatable("module-level statement `" + ast.unparse(st)[:70] + "`")
     methods = {}
     for f in cls.body:
         if isinstance(f, ast.FunctionDef):
             if f.name in methods:
                 raise Untranslatable(f"method {f.name} defined twice")
             methods[f.name] = f
+            if decorators(f) != DECORATORS.get(f.name, []):
+                raise Untranslatable(f"decorators of {f.name}: {decorators(f)}")
+        elif isinstance(f, ast.Expr) and isinstance(f.value, ast.Constant) and isinstance(f.value.value, str):
+            continue
+        elif isinstance(f, ast.Assign) and len(f.targets) == 1 and dotted(f.targets[0]) == "VALID_IO_EXTENSIONS":
+            continue
+        else:
+            raise Untranslatable("class-level statement `" + ast.unparse(f)[:70] + "`")
     for special in ("__setattr__", "__getattr__", "__getattribute__", "__contains__", "__iter__", "__setitem__", "__new__"):
         if special in methods:
             raise Untranslatable(f"{CLASS} defines {special}")
